@@ -35,6 +35,7 @@ def run(ctx, rep):
     e22_choose.run(facts, rep)
     e7_tables.run(facts, rep)
     e8_formulas.check_shift(facts, rep)
+    e8_formulas.check_koszul_sign(facts, rep)     # attaching the crossings in another order changes which factor is the left one: the sign must be there on every path
     rep.rule('E9.R8', 'one based-circle predicate (contains) for the complex and the tracked cycles: the reduced theory does not depend on the edge numbering')
     e9_relations.check_based_predicate(facts, rep)
     rep.rule('E4.O6', 'the resolution state (BitSeq) is never truncated: weight = homological position stays right beyond 32 crossings (R-moves may push a diagram there)')
